@@ -140,6 +140,10 @@ class MinErrorFlow():
             self.G = self.G_internal
             self.is_acyclic = False
             self.edges_to_ignore = set(edges_to_ignore_internal)
+            # There is no global source/sink here: flow may start at the additional starts and end at the additional ends
+            # by relaxing their conservation constraint (see _encode_flow)
+            self.additional_starts_internal = set(additional_starts_internal)
+            self.additional_ends_internal = set(additional_ends_internal)
             if self.sparsity_lambda != 0:
                 utils.logger.error(f"{__name__}: You cannot set sparsity_lambda != 0 for a graph with cycles.")
                 raise ValueError(f"You cannot set sparsity_lambda != 0 for a graph with cycles.")
@@ -226,16 +230,23 @@ class MinErrorFlow():
         for node in self.G.nodes():
             if self.G.in_degree(node) == 0 or self.G.out_degree(node) == 0:
                 continue
-            # Flow conservation constraint
-            self.solver.add_constraint(
-                self.solver.quicksum(
+            inflow_minus_outflow = self.solver.quicksum(
                     self.edge_vars[(u, v)]
                     for (u, v) in self.G.in_edges(node)
-                )
-                - self.solver.quicksum(
+                ) - self.solver.quicksum(
                     self.edge_vars[(u, v)]
                     for (u, v) in self.G.out_edges(node)
                 )
+            if not self.is_acyclic and (node in self.additional_starts_internal or node in self.additional_ends_internal):
+                # On graphs with cycles, additional start nodes may emit flow and additional end nodes may absorb flow
+                if node not in self.additional_ends_internal:
+                    self.solver.add_constraint(inflow_minus_outflow <= 0, name=f"flow_conservation_start_{node}")
+                elif node not in self.additional_starts_internal:
+                    self.solver.add_constraint(inflow_minus_outflow >= 0, name=f"flow_conservation_end_{node}")
+                continue
+            # Flow conservation constraint
+            self.solver.add_constraint(
+                inflow_minus_outflow
                 == 0,
                 name=f"flow_conservation_{node}",
             )
